@@ -840,7 +840,7 @@ func TestVerifC12(t *testing.T) {
 	dir := verifCCScratch(t)
 
 	// Part 1: full arbitrator runs.
-	total := vc.N(5000, 200000)
+	total := vc.N(5000, 300000)
 	for i := 0; i < total; i++ {
 		if !vc.Mine(i) {
 			continue
